@@ -6,7 +6,7 @@ patch=$1; prop=$2; tier=${3:-quick}
 cd /repo || exit 9
 if ! git diff --quiet; then echo "/repo is dirty, refusing"; exit 9; fi
 git apply "$patch" || { echo "patch does not apply"; exit 9; }
-cd /verif
+cd /verif; mkdir -p /tmp/x
 GOFLAGS=-mod=mod GOPROXY=off ./check "$prop" "$tier" > /tmp/x/mutant.log 2>&1
 rc=$?
 git -C /repo checkout -- . 
